@@ -7,7 +7,7 @@ TRUSTED_BASE = ["Lean 4.33 kernel", "axioms: propext, Classical.choice, Quot.sou
 ASSUMPTIONS = ["lexical path resolution: no symbolic links inside the storage root (rocfl creates none)",
                "hashed layouts (0003/0004) and the staging area derive paths from hex digests only (C11)"]
 CORRESPONDENCE = "safeRel/notInsideObject/confined (lean/RocflModel/Script.lean) vs `rocfl commit` of new objects and the strace of every operation"
-BUDGET = {"quick": dict(histories=14, ops=12, seconds=150), "thorough": dict(histories=500, ops=24, seconds=1500)}
+BUDGET = {"quick": dict(histories=40, ops=12, seconds=150), "thorough": dict(histories=500, ops=24, seconds=1500)}
 RULE = ("histories of real CLI invocations with hostile object ids ('..', '/', absolute, ids that are prefixes of one another) under the flat-direct layout "
         "and hostile --object-root values without layout, in repositories already holding objects; every mutating system call judged against "
         "{storage root, staging root}; distinct non-trivial = distinct (operation, exit status, guard verdict)")
